@@ -31,7 +31,9 @@ var binaryRawPaths = []rawPath{
 	{"binary/keyset.ReadWithNoSecrets", func(d []byte) (*keyset.Handle, error) {
 		return keyset.ReadWithNoSecrets(keyset.NewBinaryReader(bytes.NewReader(d)))
 	}},
-	{"binary-as-EncryptedKeyset/keyset.Read", func(d []byte) (*keyset.Handle, error) { return keyset.Read(keyset.NewBinaryReader(bytes.NewReader(d)), kek) }},
+	{"binary-as-EncryptedKeyset/keyset.Read", func(d []byte) (*keyset.Handle, error) {
+		return keyset.Read(keyset.NewBinaryReader(bytes.NewReader(d)), kek)
+	}},
 }
 
 var jsonRawPaths = []rawPath{
@@ -41,7 +43,9 @@ var jsonRawPaths = []rawPath{
 	{"json/keyset.ReadWithNoSecrets", func(d []byte) (*keyset.Handle, error) {
 		return keyset.ReadWithNoSecrets(keyset.NewJSONReader(bytes.NewReader(d)))
 	}},
-	{"json-as-EncryptedKeyset/keyset.Read", func(d []byte) (*keyset.Handle, error) { return keyset.Read(keyset.NewJSONReader(bytes.NewReader(d)), kek) }},
+	{"json-as-EncryptedKeyset/keyset.Read", func(d []byte) (*keyset.Handle, error) {
+		return keyset.Read(keyset.NewJSONReader(bytes.NewReader(d)), kek)
+	}},
 }
 
 // submit runs data through the paths. mustReject != "": any acceptance is a violation with that key.
@@ -562,7 +566,9 @@ func encryptedSection(x *h.X) {
 			}},
 		}
 		if len(aad) == 0 {
-			paths = append(paths, rawPath{"binary/keyset.Read", func([]byte) (*keyset.Handle, error) { return keyset.Read(keyset.NewBinaryReader(bytes.NewReader(bin)), kek) }})
+			paths = append(paths, rawPath{"binary/keyset.Read", func([]byte) (*keyset.Handle, error) {
+				return keyset.Read(keyset.NewBinaryReader(bytes.NewReader(bin)), kek)
+			}})
 		}
 		a := submit(x, paths, nil, desc, must)
 		if a > 0 {
@@ -675,7 +681,9 @@ func encryptedSection(x *h.X) {
 			}
 		}
 		for cut := 0; cut <= len(outer); cut++ {
-			try(outer[:cut], func() string { return fmt.Sprintf("EncryptedKeyset message truncated to %d of %d bytes", cut, len(outer)) })
+			try(outer[:cut], func() string {
+				return fmt.Sprintf("EncryptedKeyset message truncated to %d of %d bytes", cut, len(outer))
+			})
 		}
 		// every byte value at the structural positions (first 4 bytes: tag + length, and the keyset_info part)
 		hdr := len(outer) - len(ct)
